@@ -263,6 +263,7 @@ class Recorder:
         self.system: Any = None
         self._depth = 0
         self.probe = False          # ask the registry questions after every action (see run_probe)
+        self.probe_names: List[str] = []     # names (simple and qualified) the project will define LATER: asked before they exist
         self._probing = False
         self.probes = 0
 
@@ -292,7 +293,7 @@ class Recorder:
         self._probing = True
         try:
             objs = list(system.allobjects.values())
-            names = sorted({o.name for o in objs if " " not in o.name and "." not in o.name})[:14]
+            names = sorted({o.name for o in objs if " " not in o.name and "." not in o.name} | {n for n in self.probe_names if "." not in n})[:20]
             dotted = sorted({f"{o.name}.{n}" for o in objs if isinstance(o, model.Class) and " " not in o.name for n in list(o.contents)[:4]})[:14]
             for o in objs:
                 try:
@@ -308,7 +309,7 @@ class Recorder:
                             o.find(q)
                 except Exception:
                     pass            # a lookup that raises in an intermediate state is not this dimension's business
-            for k in list(system.allobjects)[:60]:
+            for k in list(system.allobjects)[:60] + [n for n in self.probe_names if "." in n][:40]:
                 try:
                     system.find_object(k)
                     system.find_object(k + ".nosuchmember")
@@ -420,6 +421,11 @@ def real_build(p: Dict[str, Any], sched: Sequence[int], scratch: Path, record_st
 
     rec = Recorder(record_states)
     rec.probe = probe
+    if probe:
+        simple = {op.get("n") or op.get("as") for m in p["mods"] for op in m["ops"] if op.get("k") in ("class", "def", "var", "alias", "from")} - {None}
+        qual = {".".join(mod_path(p, i) + [op["n"]]) for i, m in enumerate(p["mods"]) for op in m["ops"] if op.get("k") in ("class", "def", "var")}
+        rex = {".".join(mod_path(p, i) + [n]) for i, m in enumerate(p["mods"]) if m["hasAll"] for n in m["all"]}
+        rec.probe_names = sorted(simple) + sorted(qual | rex)
     undo = rec.install()
     msgs: List[Tuple[str, str]] = []
     crashed = ""
